@@ -176,7 +176,44 @@ def r5_5(ctx):
     r3_3(ctx)
 
 
+def r5_6(ctx):
+    """'every task ... completes': a task that was handed to the workflow's registration helper but is not in task_list is never
+    simulated, yet its declared successors wait for it for ever.  The helpers put what they are given into the container on every
+    path, whatever back-reference the object already carries."""
+    ctx.begin("R5.6", "append_child_task / append_child_component (and the extend_ forms) register every given object unconditionally", floor=4)
+    for cls, one, many, coll in ((WORKFLOW, "append_child_task", "extend_child_task_list", "task_list"),
+                                 (PRODUCT, "append_child_component", "extend_child_component_list", "component_list")):
+        g = ctx.repo.method(cls, one)
+        pname = [p for p in g.params if p != "self"][0]
+        I = mk_interp(ctx)
+        for st, ex in I.run_function(g):
+            if ex is not None and ex[0] == "raise":
+                continue
+            item = st.env.get(pname)
+            apps = [e for e in flatten(st.trace) if isinstance(e, Mut) and e.attr == coll and e.op in ("append", "insert") and isinstance(e.recv, Obj) and e.recv.name == "self"
+                    and e.args and e.args[-1] == item]
+            ctx.instance(construct(g, "path"), sample={"appends": len(apps)})
+            if len(apps) != 1:
+                ctx.violation(construct(g, "registers"), g.loc(), f"{g.qualname} has a path on which the given object is put into {cls}.{coll} {len(apps)} time(s) (expected exactly once): "
+                              f"an object that already carries a back-reference (set by append_input_task / a constructor) is then silently left out of the simulation")
+        h = ctx.repo.method(cls, many)
+        I = mk_interp(ctx, inline=lambda call, callee, depth: callee.cls == cls and callee.name == one)
+        for st, ex in I.run_function(h):
+            lps = [e for e in st.trace if isinstance(e, Loop)]
+            ok = False
+            for lp in lps:
+                if all(any(isinstance(e, Mut) and e.attr == coll and e.op in ("append", "insert") and e.args and e.args[-1] == lp.var for e in flatten(tr)) for tr, ex2 in lp.alts if ex2 is None or ex2[0] == "continue") \
+                        and lp.alts and not (isinstance(lp.coll, CollV) and lp.coll.preds):
+                    ok = True
+            direct = [e for e in st.trace if isinstance(e, Mut) and e.attr == coll and e.op == "extend"]
+            ctx.instance(construct(h, "path"), sample={"loops": len(lps), "extend": len(direct)})
+            if not ok and not direct:
+                ctx.violation(construct(h, "registers-all"), h.loc(), f"{h.qualname} does not put every element of its argument into {cls}.{coll}")
+    ctx.end()
+
+
 def run(ctx):
+    r5_6(ctx)
     r5_1(ctx)
     r5_2(ctx)
     r5_3(ctx)
